@@ -107,19 +107,43 @@ def count_text(exact):
 
 
 def gen_string(exact, depth=2):
-    parts = []
+    return gen_string2(exact, depth)[0]
+
+
+def gen_string2(exact, depth=2):
+    """(string, {atom key: count} as the grammar reads it): parts joined by '+' or blanks; a part is a parenthesised group
+    with a trailing count, or a run of atoms with their counts, optionally led by a count that multiplies the run"""
+    parts, want = [], {}
+
+    def add(d, mult):
+        for k, c in d.items():
+            want[k] = want.get(k, 0) + c * mult
     for _ in range(rng.randint(1, 3)):
         if depth > 0 and rng.random() < 0.35:
-            parts.append("(" + gen_string(exact, depth - 1) + ")" + count_text(exact))
+            inner, d = gen_string2(exact, depth - 1)
+            ct = count_text(exact)
+            parts.append("(" + inner + ")" + ct)
+            add(d, float(ct) if ct else 1)
         else:
-            parts.append("".join(atom_text(pool.atom()) + count_text(exact) for _ in range(rng.randint(1, 3))))
-    return rng.choice(["+", " ", " + "]).join(parts)
+            d, text = {}, ""
+            for _ in range(rng.randint(1, 3)):
+                a = pool.atom()
+                ct = count_text(exact)
+                text += atom_text(a) + ct
+                d[atom_key(a)] = d.get(atom_key(a), 0) + (float(ct) if ct else 1)
+            lead = ""
+            if rng.random() < 0.3:
+                lead = rng.choice(["2", "3", "12", "0.5", "1.5"])
+            parts.append(lead + text)
+            add(d, float(lead) if lead else 1)
+    return rng.choice(["+", " ", " + "]).join(parts), want
 
 
 def gen_program(exact, length):
     vars_, ops, snaps, txt = {}, [], [], []
     nextv = 0
     parsed = {}
+    readings = {}
 
     def q(x):
         return qterm(x)
@@ -134,11 +158,20 @@ def gen_program(exact, length):
             v = nextv; nextv += 1
             # a string already parsed in this program is often parsed again (after the first result may have been
             # extended in place): what a string denotes does not depend on what was done with earlier results
-            text = rng.choice(sorted(parsed)) if parsed and rng.random() < 0.4 else gen_string(exact)
+            if parsed and rng.random() < 0.4:
+                text = rng.choice(sorted(parsed))
+            else:
+                text, reading = gen_string2(exact)
+                readings[text] = reading
             dens = rng.choice([None, None, round(rng.uniform(0.5, 12), 2)])
             name = rng.choice([None, None, "named%d" % step])
             vars_[v] = formula(text, density=dens, name=name)
             now = ref_counts(vars_[v].structure, 1, {})
+            rd = readings.get(text)
+            if rd is not None and (set(k for k, c in rd.items() if c) != set(k for k, c in now.items() if c)
+                                   or any(not rel(now.get(k, 0), c, 1e-12) for k, c in rd.items())):
+                fail("C02:parse-atoms", "formula(%r) has atoms %r; read as the grammar says (a leading count multiplies the run of atoms "
+                     "after it, a trailing count its group) it has %r" % (text, now, rd), program="formula(%r)" % text)
             if text in parsed and parsed[text] != now:
                 fail("C02:parse-depends-on-history", "formula(%r) has atoms %r now, %r when the program first parsed it; program: %s"
                      % (text, now, parsed[text], "; ".join(txt)), program="; ".join(txt + ["formula(%r)" % text]))
